@@ -95,15 +95,16 @@ class StereoCondensedReactionGraph(StereoMolGraph, CondensedReactionGraph):
         s_colors = {a: int(c) for a,c in zip(self.atoms, s_color_array)}
 
         return any(
-                vf2pp_all_isomorphisms(
-                    self,
-                    other,
-                    atom_labels=(s_colors, o_colors),
-                    stereo=True,
-                    stereo_change=True,
-                    subgraph=False,
-                )
+            self._bond_changes_preserved(other, mapping)
+            for mapping in vf2pp_all_isomorphisms(
+                self,
+                other,
+                atom_labels=(s_colors, o_colors),
+                stereo=True,
+                stereo_change=True,
+                subgraph=False,
             )
+        )
 
     @property
     def atom_stereo_changes(self) -> Mapping[AtomId, ChangeDict[AtomStereo]]:
